@@ -12,7 +12,8 @@ pub mod c13;
 pub mod c14;
 pub mod c15;
 pub mod c16;
+pub mod c17;
 
 pub fn all() -> Vec<PropertyDef> {
-    vec![c02::def(), c03::def(), c04::def(), c05::def(), c11::def(), c12::def(), c13::def(), c14::def(), c15::def(), c16::def()]
+    vec![c02::def(), c03::def(), c04::def(), c05::def(), c11::def(), c12::def(), c13::def(), c14::def(), c15::def(), c16::def(), c17::def()]
 }
